@@ -55,4 +55,6 @@ def make_disk_hooks():
     hooks = harness.make_hooks(plan)
     if plan.no_before_all:
         hooks.pop("before_all", None)
+    for name in plan.omit_hooks:
+        hooks.pop(name, None)
     return hooks
